@@ -260,3 +260,28 @@ func (w *World) ownedOnlyBy(f *ssa.Function, keys ...string) bool {
 	}
 	return true
 }
+
+// liftTo: the instruction of fn through which `in` runs — in itself, or, when in lies in a helper fn walks through,
+// the call in fn that (through helper-only calls) leads to it. Returns in unchanged if no such call is found.
+func (w *World) liftTo(fn *ssa.Function, in ssa.Instruction) ssa.Instruction {
+	cur := in
+	for i := 0; i < 4 && cur.Parent() != fn; i++ {
+		f := cur.Parent()
+		if !isHelper(f) {
+			return in
+		}
+		var next ssa.Instruction
+		for _, cs := range w.callSitesOf(f) {
+			for _, g := range withHelpers(fn) {
+				if cs.Parent() == g {
+					next = cs
+				}
+			}
+		}
+		if next == nil {
+			return in
+		}
+		cur = next
+	}
+	return cur
+}
